@@ -29,6 +29,9 @@ pub enum TOp {
     Del(Vec<u8>),
     Get(Vec<u8>),
     Reopen(bool),
+    /// the next n operations run through a handle opened WITHOUT the hint (`BTree::new`, what UPDATE / index
+    /// maintenance do) and the hint they hand back is not stored: afterwards the stored hint may be stale
+    Foreign(usize),
 }
 
 impl TOp {
@@ -42,6 +45,7 @@ impl TOp {
             TOp::Get(k) => format!("g:{}", bn(k)),
             TOp::Reopen(false) => "r".into(),
             TOp::Reopen(true) => "R".into(),
+            TOp::Foreign(n) => format!("F{n}"),
         }
     }
     fn name(&self) -> &'static str {
@@ -53,11 +57,13 @@ impl TOp {
             TOp::Del(..) => "delete",
             TOp::Get(..) => "get",
             TOp::Reopen(_) => "reopen",
+            TOp::Foreign(_) => "foreign_handle",
         }
     }
     fn parse(t: &str) -> Option<TOp> {
         if t == "r" { return Some(TOp::Reopen(false)); }
         if t == "R" { return Some(TOp::Reopen(true)); }
+        if let Some(n) = t.strip_prefix('F').and_then(|x| x.parse::<usize>().ok()) { return Some(TOp::Foreign(n)); }
         let rest = t.get(2..)?;
         let two = |rest: &str| -> Option<(Vec<u8>, Vec<u8>)> {
             for (i, ch) in rest.char_indices() {
@@ -308,6 +314,7 @@ pub fn run_tree_case(ops: &[TOp], path: &str, mut model: Option<&mut Model>, see
         if let Some(l) = view.leaf(0) { if r != format!("ok {}", summary(l)) { run.disagreements.push((0, format!("create: impl {} model {r}", summary(l)), "tree-create".into())); } }
         synced.insert(0);
     }
+    let mut foreign_left = 0usize;
     for (n, op) in ops.iter().enumerate() {
         run.ops_done = n + 1;
         *run.hist.entry(format!("treeop_{}", op.name())).or_insert(0) += 1;
@@ -315,6 +322,7 @@ pub fn run_tree_case(ops: &[TOp], path: &str, mut model: Option<&mut Model>, see
             if !*keep { hint = None; }
             continue;
         }
+        if let TOp::Foreign(k) = op { foreign_left = *k; continue; }
         // generator-level preconditions
         if let TOp::App(k, _) = op {
             if oracle.keys().next_back().map(|m| m >= k).unwrap_or(false) { *run.hist.entry("append_skipped_precondition".into()).or_insert(0) += 1; continue; }
@@ -322,9 +330,13 @@ pub fn run_tree_case(ops: &[TOp], path: &str, mut model: Option<&mut Model>, see
         let (key, val): (&Vec<u8>, Option<&Vec<u8>>) = match op {
             TOp::Ins(k, v) | TOp::Inx(k, v) | TOp::App(k, v) | TOp::Upd(k, v) => (k, Some(v)),
             TOp::Del(k) | TOp::Get(k) => (k, None),
-            TOp::Reopen(_) => unreachable!(),
+            TOp::Reopen(_) | TOp::Foreign(_) => unreachable!(),
         };
         if let Some(v) = val { if cell_need(key, v) > PAGE - LEAF_START { *run.hist.entry("op_skipped_cell_exceeds_page".into()).or_insert(0) += 1; continue; } }
+        // operations of a foreign handle: no hint goes in, the hint that comes out is dropped
+        let stored_hint = hint;
+        let foreign = foreign_left > 0;
+        if foreign { hint = None; foreign_left -= 1; *run.hist.entry("treeop_through_foreign_handle".into()).or_insert(0) += 1; }
         let target = view.descend(key);
         let hint_leaf_empty_nonroot = hint.and_then(|h| view.leaf(h)).map(|l| l.cells.is_empty() && l.next == 0).unwrap_or(false) && hint != Some(root);
         // ---- model prediction (leaf level)
@@ -363,7 +375,7 @@ pub fn run_tree_case(ops: &[TOp], path: &str, mut model: Option<&mut Model>, see
                     TOp::Upd(..) => m.ask(&format!("{} {t} {kb} {vb}", if var.upd_fixed { "tupd2" } else { "tupd" })),
                     TOp::Del(..) => m.ask(&format!("tdel {t} {kb}")),
                     TOp::Get(..) => m.ask(&format!("find {t} {kb}")),
-                    TOp::Reopen(_) => unreachable!(),
+                    TOp::Reopen(_) | TOp::Foreign(_) => unreachable!(),
                 };
                 pred = Some(if r == "split" { (Some(t), r, true) }
                     else if let Some(s) = r.strip_prefix("ok ") { (Some(t), format!("ok|{s}"), false) }
@@ -390,7 +402,7 @@ pub fn run_tree_case(ops: &[TOp], path: &str, mut model: Option<&mut Model>, see
                     TOp::Upd(k, v) => match bt.update(k, v) { Ok(b) => Ret::Bool(b), Err(e) => Ret::Err(errs(&e)) },
                     TOp::Del(k) => match bt.delete(k) { Ok(b) => Ret::Bool(b), Err(e) => Ret::Err(errs(&e)) },
                     TOp::Get(k) => match bt.get(k) { Ok(v) => Ret::Val(v.map(|x| x.to_vec())), Err(e) => Ret::Err(errs(&e)) },
-                    TOp::Reopen(_) => Ret::Unit,
+                    TOp::Reopen(_) | TOp::Foreign(_) => Ret::Unit,
                 };
                 (ret, bt.root_page(), bt.rightmost_hint())
             }));
@@ -398,7 +410,7 @@ pub fn run_tree_case(ops: &[TOp], path: &str, mut model: Option<&mut Model>, see
                 let msg = e.downcast_ref::<&str>().map(|s| s.to_string()).or_else(|| e.downcast_ref::<String>().cloned()).unwrap_or_else(|| "panic".into());
                 (Ret::Panic(msg.chars().take(100).collect()), root, hint) } }
         };
-        root = nroot; hint = nhint;
+        root = nroot; hint = if foreign { stored_hint } else { nhint };
         let snap2 = snapshot(&st);
         let view2 = view_of(root, &snap2);
         let changed: BTreeSet<u32> = (0..snap2.len() as u32).filter(|p| snap.get(*p as usize) != Some(&snap2[*p as usize])).collect();
@@ -724,7 +736,7 @@ pub fn run_prop(ctx: &Ctx, prop: &str) -> Report {
         "stage L: LeafNodeMut op sequences (insert_cell / insert_cell_at / insert_at_end / delete_cell / update in place / shrink / \
          compact / set_next / find_key; key families: <4-byte keys over {00,01,ff}, 8-byte BE ints, shared 6-byte prefix, 50..1500-byte keys, \
          random; value lengths at varint and u8 boundaries, exact-fit +-1 cells) vs the Lean leaf model after every op + C29 leaf clauses + sorted-map \
-         semantics on the decoded page. stage T: BTree<MmapStorage> op sequences (profiles: random, ascending+append+hint, descending, equal-prefix, \
+         semantics on the decoded page. stage T: BTree<MmapStorage> op sequences (incl. stale-hint sequences: runs of operations through a foreign handle that neither receives nor returns the rightmost-leaf hint; profiles: random, ascending+append+hint, descending, equal-prefix, \
          1-3 KB cells, near-page-size cells, wipe-out of whole leaves, update grow/shrink) with result/content/get/cursor first-seek-last checks against \
          BTreeMap, a raw-byte structural validator over all reachable pages, and leaf-model correspondence (incl. replay of both split halves) after \
          every op. non-trivial = distinct op sequence prefix (hash of the ops so far) whose op changed a page or was answered from a tree with >= 2 leaves",
@@ -777,6 +789,29 @@ pub fn run_prop(ctx: &Ctx, prop: &str) -> Report {
         let nops = match profile { 4 | 5 => 120, 6 => 260, _ => 200 } * if ctx.thorough && s % 5 == 0 { 5 } else { 1 };
         let mut r = rng.fork();
         tcases.push((format!("profile{profile}"), gen_tree_ops(&mut r, profile, nops)));
+    }
+    // stale rightmost hint: some operations run through a foreign handle (no hint in, hint out dropped), so the
+    // stored hint can point at a leaf that a foreign split has turned into a left sibling
+    {
+        let be8 = |i: u64| i.to_be_bytes().to_vec();
+        let mut ops = vec![];
+        for i in 1..=14u64 { ops.push(TOp::App(be8(i), vec![0x55; 1000])); }
+        ops.push(TOp::Foreign(4));
+        for i in 15..=18u64 { ops.push(TOp::Ins(be8(i), vec![0x66; 1000])); }
+        for i in 19..=22u64 { ops.push(TOp::App(be8(i), vec![0x77; 1000])); ops.push(TOp::Get(be8(i))); }
+        tcases.push(("stale-hint-directed".to_string(), ops));
+        let mut r2 = Rng::new(ctx.seed ^ 0x57A1E);
+        let nstale = if ctx.thorough { 150 } else { 12 };
+        for s in 0..nstale {
+            let profile = [1u64, 0, 7][s % 3];
+            let base = gen_tree_ops(&mut r2, profile, 200);
+            let mut ops = vec![];
+            for (i, o) in base.into_iter().enumerate() {
+                if i % 20 == 19 && r2.chance(2, 3) { ops.push(TOp::Foreign(1 + r2.below(8) as usize)); }
+                ops.push(o);
+            }
+            tcases.push((format!("stale-hint-profile{profile}"), ops));
+        }
     }
     let path = format!("{}/bt-{}.db", ctx.scratch, std::process::id());
     let var = detect_variants(&path);
